@@ -478,7 +478,8 @@ func (c *Ctx) pan2() {
 				var conns []ssa.Value
 				if e.Method != nil && recvTypeName(e.Method) == "net.Conn" {
 					conns = append(conns, e.Args[0])
-				} else if e.Callee != nil && load.TopLevel(e.Callee).Pkg == c.P.Root {
+				} else if e.Callee != nil && load.TopLevel(e.Callee).Pkg == c.P.Root && !c.isNewHelper(e.Callee) {
+					// (a helper introduced later is expanded in place: what it does with the value shows up as events of its own)
 					for _, arg := range e.Args {
 						if t, ok := arg.Type().(*types.Named); ok && t.Obj().Name() == "Conn" && t.Obj().Pkg().Name() == "net" {
 							conns = append(conns, arg)
@@ -580,9 +581,9 @@ func init() {
 func (c *Ctx) tok12() {
 	um := c.constInt("unorderedIDMask")
 	n := 0
-	for _, fn := range c.funcs {
+	for _, fn := range c.analysed() {
 		touches := false
-		for _, b := range fn.Blocks {
+		for _, b := range c.regionBlocks(fn) {
 			for _, ins := range b.Instrs {
 				switch x := ins.(type) {
 				case *ssa.MapUpdate:
